@@ -23,7 +23,8 @@ Plans ==
 
 (* what every scan driver of the law checks (C01 - C04, C07 - C19) does since harness/bystander.py: the solver under test, *)
 (* a bystander of the same class with other parameters constructed after it and called with the same request before it   *)
-ScanPlans == {<<C(1, c, 1), C(2, c, 2), K(2, "full", 1), K(1, "full", 1)>> : c \in Classes}
+(* and itself called once at another time before the call that is measured                                                 *)
+ScanPlans == {<<C(1, c, 1), C(2, c, 2), K(2, "full", 1), K(1, "full", 2), K(1, "full", 1)>> : c \in Classes}
 
 QueryPlans == {<<C(1, c, k), Qy(1, 1), K(1, "full", 1), Qy(1, 2), K(1, "full", 1)>> : c \in Classes, k \in Cfgs}
 
